@@ -124,6 +124,10 @@ def gen_sched_case(seed: int, max_ops: int = 40, max_jobs: int = 6, *, failures:
                 alive.append((h, kind))
                 if key is not None:
                     used_keys.add(key)
+            # observer callbacks (id 0): every (re)scheduling and the finishing become visible in the trace
+            # (answered with NoHandle when the creation failed)
+            emit(f'cbreg u {h} 0')
+            emit(f'cbreg f {h} 0')
         elif r < 0.5:
             d = rnd.choice([0, 0, 1, 1, 2, 2, 3, 4, 6, 10, 20]) * U // rnd.choice([1, 1, 2])
             m = rnd.random()
